@@ -839,7 +839,18 @@ pub async fn after_heartbeat_verification(h: &mut Harness) {
             continue;
         }
         let last = h.last_ping.get(&c).copied().unwrap_or(0).max(h.connected_at.get(&c).copied().unwrap_or(0));
-        if last + interval + 50 < now {
+        // the server compares its own clock readings (a few auto-ticks away from the ones recorded here):
+        // within 5 ms of the limit the outcome is not predicted
+        const BAND: u64 = 5_000;
+        if h.verbose {
+            eprintln!("[heartbeat] c{c}: last {last} interval {interval} now {now}");
+        }
+        if last + interval + BAND < now {
+            evicted.push(c);
+        } else if last + interval < now + BAND {
+            // either way the connection is closed from this side: evicted or not, it is gone afterwards and
+            // the server has dropped its memberships
+            h.stats.probe("heartbeat_eviction_at_the_limit_connection_closed");
             evicted.push(c);
         }
     }
